@@ -227,36 +227,38 @@ def angle_check(ctx, c, outs):
     m = miller(c)
     from orix.vector import Miller
     if "others" in c:
-        # as many `other` vectors as vectors: angles are element-wise (as without symmetry), each the minimum over the orbit
-        # of the OTHER VECTOR AT THE SAME POSITION
-        o = Miller(phase=m.phase, **{c["fmt"]: np.asarray(c["others"], float).reshape(tuple(c["shape"]) + (3,))})
+        # several `other` vectors: shapes broadcast as without symmetry; each angle is the minimum over the orbit of the OTHER
+        # VECTOR AT THE SAME (broadcast) POSITION
+        oshape = tuple(c.get("oshape", c["shape"]))
+        o = Miller(phase=m.phase, **{c["fmt"]: np.asarray(c["others"], float).reshape(oshape + (3,))})
     else:
+        oshape = (1,)
         o = Miller(phase=m.phase, **{c["fmt"]: np.asarray(c["other"], float).reshape(1, 3)})
     with warnings.catch_warnings():
         warnings.simplefilter("ignore")
         a = m.angle_with(o, use_symmetry=True)
         a_deg = m.angle_with(o, use_symmetry=True, degrees=True)
         plain = m.angle_with(o)
-    flat = m.data.reshape(-1, 3)
-    if "others" in c:
-        imgs = images_of(G, o.data.reshape(-1, 3))           # (n, g, 3)
-        cosv = np.einsum("ni,ngi->ng", flat, imgs) / (np.linalg.norm(flat, axis=1)[:, None] * np.linalg.norm(imgs, axis=2))
-    else:
-        img = images_of(G, o.data.reshape(-1, 3))[0]
-        cosv = (flat @ img.T) / (np.linalg.norm(flat, axis=1)[:, None] * np.linalg.norm(img, axis=1)[None, :])
-    ref = np.arccos(np.clip(cosv, -1, 1)).min(axis=1).reshape(m.shape)
-    if a.shape != tuple(m.shape):
-        return f"angle shape {a.shape} for vectors of shape {tuple(m.shape)}"
+    shp = np.broadcast_shapes(tuple(m.shape), oshape)
+    flat = np.broadcast_to(m.data, shp + (3,)).reshape(-1, 3)
+    oflat = np.broadcast_to(o.data, shp + (3,)).reshape(-1, 3)
+    imgs = images_of(G, oflat)           # (n, g, 3)
+    cosv = np.einsum("ni,ngi->ng", flat, imgs) / (np.linalg.norm(flat, axis=1)[:, None] * np.linalg.norm(imgs, axis=2))
+    ref = np.arccos(np.clip(cosv, -1, 1)).min(axis=1).reshape(shp)
+    if a.shape != tuple(shp):
+        return f"angle shape {a.shape} for vectors of shape {tuple(m.shape)} and other vectors of shape {oshape} (broadcast: {tuple(shp)})"
+    if np.asarray(plain).shape != tuple(shp):
+        return f"plain angle shape {np.asarray(plain).shape} != {tuple(shp)}"
     if np.abs(a - ref).max() > 2e-6:
         if "others" in c:
             allimg = imgs.reshape(-1, 3)
             cu = (flat @ allimg.T) / (np.linalg.norm(flat, axis=1)[:, None] * np.linalg.norm(allimg, axis=1)[None, :])
-            union = np.arccos(np.clip(cu, -1, 1)).min(axis=1).reshape(m.shape)
+            union = np.arccos(np.clip(cu, -1, 1)).min(axis=1).reshape(shp)
             how = ("it is the minimum over the orbits of ALL other vectors" if np.abs(a - union).max() <= 2e-6
                    else "it is not the minimum over the orbits of all other vectors either")
-            return (f"{G.name}: angle_with(use_symmetry=True) of {m.size} vectors with {o.size} other vectors (same shape) = {a.tolist()} "
-                    f"but the minimum angles over the orbit of the other vector at the same position are {ref.tolist()}; {how} "
-                    f"(without symmetry, element-wise: {np.asarray(plain).tolist()}; vectors {flat.tolist()}, others {o.data.tolist()})")
+            return (f"{G.name}: angle_with(use_symmetry=True) of vectors of shape {tuple(m.shape)} with other vectors of shape {oshape} = "
+                    f"{a.tolist()} but the minimum angles over the orbit of the other vector at the same position are {ref.tolist()}; {how} "
+                    f"(without symmetry, element-wise: {np.asarray(plain).tolist()}; vectors {m.data.tolist()}, others {o.data.tolist()})")
         return (f"{G.name}: angle_with(use_symmetry=True) = {a.tolist()} but the minimum angle over the other vector's "
                 f"orbit is {ref.tolist()} (vectors {flat.tolist()}, other {o.data.tolist()})")
     if np.abs(np.deg2rad(a_deg) - a).max() > 1e-12:
@@ -456,10 +458,8 @@ def anglem_check(ctx, c, outs):
         if out.startswith("!err"):
             return f"model: {out}"
         am = h2f(out)
-        # both round the cosine to 12 decimals before arccos: they may land on neighbouring grid points (one step 1e-12);
-        # the implementation takes the images from `symmetrise(unique=True)`, whose Cartesian components are rounded to 10
-        # decimals (Object3d.unique): each image moves by at most sqrt(3)/2 * 1e-10, its direction by that over its length
-        tol = 1.5e-12 + 1e-10 / float(np.linalg.norm(o.data))
+        # both round the cosine to 12 decimals before arccos: they may land on neighbouring grid points (one step 1e-12)
+        tol = 1.5e-12
         d = abs(math.cos(ai) - math.cos(am))
         ctx.dev("angle_model: |cos(angle) - cos(model angle)| / tolerance", d / tol)
         if not d <= tol:
@@ -736,6 +736,12 @@ def generate(ctx):
               "coords": vectors(rng, gs[kk], n), "others": vectors(rng, gs[kk], n)}
         ctx.count("angle_sym/several_others", ("ao", kk, tuple(co["coords"][0]), tuple(co["others"][0])))
         yield "angle_sym", co
+        # shapes that broadcast: (2, 1) with (3,), (3,) with (2, 3), (2, 2) with (2, 1)
+        shape, oshape = [((2, 1), (3,)), ((3,), (2, 3)), ((2, 2), (2, 1))][r % 3]
+        cb = {"k": kk, "basis": basis_of(kk), "fmt": ["uvw", "xyz", "hkl"][r % 3], "shape": list(shape), "oshape": list(oshape),
+              "coords": vectors(rng, gs[kk], int(np.prod(shape))), "others": vectors(rng, gs[kk], int(np.prod(oshape)))}
+        ctx.count("angle_sym/several_others_broadcast", ("aob", kk, tuple(cb["coords"][0]), tuple(cb["others"][0])))
+        yield "angle_sym", cb
     for stratum, cm in round_model_cases(rng, 2 if ctx.tier == "quick" else 10):
         ctx.count(f"round_model/{stratum}", ("rm", stratum, cm["max_index"], repr(cm["x"])), nontrivial=stratum != "zero_vector")
         yield "round_model", cm
